@@ -25,11 +25,22 @@ for d in sorted(glob.glob("/verif/seeded/*")):
             t0 = time.time()
             c, o = sh(f"cd /verif && ./check {p} --tier quick")
             res[p] = (c, round(time.time() - t0))
+            # keep the stored evaluation current: exit code and the first lines the check printed
+            lines = [l[:300] for l in o.splitlines() if l.startswith(("VIOLATION", "UNDECIDED", "CRASH", "[" + p))]
+            viol = [l for l in lines if l.startswith("VIOLATION")]
+            ran = m.setdefault("evaluation", {}).setdefault("ran", [])
+            ent = next((r for r in ran if r["check"].split()[-1] == p), None)
+            if ent is None:
+                ent = {"check": f"./check {p}"}
+                ran.append(ent)
+            ent.update(exit=c, seconds=round(time.time() - t0), summary=(viol[:3] + [l for l in lines if l.startswith("[")][-1:]) or lines[:4])
+        json.dump(m, open(d + "/meta.json", "w"), indent=1)
     finally:
         sh("git -C /repo checkout -- .")
     ok = any(c == 1 for c, _ in res.values())
-    print(sid, "OK " if ok else "MISSED", res, flush=True)
-    if not ok:
+    accepted = m.get("evaluation", {}).get("accepted_miss")
+    print(sid, "OK " if ok else ("MISSED (recorded as outside the technique's reach)" if accepted else "MISSED"), res, flush=True)
+    if not ok and not accepted:
         bad.append(sid)
 print("missed:", bad)
 sys.exit(1 if bad else 0)
